@@ -83,3 +83,30 @@ impl<V> VStrMap<V> {
         ensures r is Some <==> self@.contains_key(k@), r is Some ==> *r->Some_0 == self@[k@],
     { unimplemented!() }
 }
+
+/// hash.finalize() as a value (GenericArray<u8, U32>)
+pub struct VDigest { pub d: [u8; 32] }
+impl Sha256 {
+    #[verifier::external_body]
+    pub fn finalize(self) -> (r: VDigest) ensures r.d@ == sha256(self.input@) { unimplemented!() }
+}
+impl VDigest {
+    /// `digest.as_slice() != array` / `==`  [rewrite R11]
+    #[verifier::external_body]
+    pub fn equals(&self, other: &[u8; 32]) -> (r: bool) ensures r == (self.d@ == other@) { unimplemented!() }
+    #[verifier::external_body]
+    pub fn to_vec(&self) -> (r: Vec<u8>) ensures r@ == self.d@ { unimplemented!() }
+}
+#[verifier::external_body]
+pub fn vslice_to_vec(a: &[u8; 32]) -> (r: Vec<u8>) ensures r@ == a@ { unimplemented!() }
+
+impl<V> VIdMap<V> {
+    /// `for (k, v) in map` (by value, unspecified order)  [rewrite R9]: the entries as a vector, each key once
+    #[verifier::external_body]
+    pub fn into_entries(self) -> (r: Vec<(u64, V)>)
+        ensures
+            forall|i: int| 0 <= i < r@.len() ==> self@.contains_key(#[trigger] r@[i].0) && self@[r@[i].0] == r@[i].1,
+            forall|k: u64| self@.contains_key(k) ==> exists|i: int| 0 <= i < r@.len() && #[trigger] r@[i].0 == k,
+            forall|i: int, j: int| 0 <= i < j < r@.len() ==> r@[i].0 != r@[j].0,
+    { unimplemented!() }
+}
